@@ -435,6 +435,14 @@ func (ms *Modules) include(m *Module) error {
 		if im == nil {
 			return fmt.Errorf("no such submodule: %s", i.Name)
 		}
+		// Only submodules of the same module can be included (RFC 7950 7.1.6).
+		owner := m.Name
+		if m.BelongsTo != nil {
+			owner = m.BelongsTo.Name
+		}
+		if im.BelongsTo == nil || im.BelongsTo.Name != owner {
+			return fmt.Errorf("%s: included submodule %s does not belong to %s", Source(i), i.Name, owner)
+		}
 		// Process the include statements in our included module.
 		if err := ms.include(im); err != nil {
 			return err
